@@ -988,4 +988,137 @@ example : AllReferenced wStore ∧ allReadable wStore = true ∧
       have : Path.blob "d2" ≠ Path.blob d := fun e => h2 (by injection e with e; exact e.symm)
       simp [wStore, StoreCrash.get, *] at hd
 
+
+
+/-! ## Round 7 — clause 3 for create (fixed variant) -/
+
+theorem uploads_ok (env : Env) (k : Nat) (ups : List (Digest × Bytes)) (st : Store) :
+    (uploads env k ups st).ok = true := by
+  induction ups generalizing st k with
+  | nil => rfl
+  | cons u rest ih =>
+    obtain ⟨d, body⟩ := u
+    simp only [uploads]
+    rw [andThen_ok, upload_ok, ih]; rfl
+
+/-- after an honest client's uploads every uploaded digest is present -/
+theorem uploads_present {hash : Bytes → Digest} {env : Env} (henv : EnvOK hash env) (k : Nat)
+    (ups : List (Digest × Bytes)) (hups : ∀ u ∈ ups, hash u.2 = u.1) (st : Store) :
+    ∀ u ∈ ups, present (run (uploads env k ups st).effs st) (.blob u.1) = true := by
+  induction ups generalizing st k with
+  | nil => intro u hu; cases hu
+  | cons u0 rest ih =>
+    obtain ⟨d, body⟩ := u0
+    intro u hu
+    simp only [uploads]
+    rw [run_andThen, upload_ok]
+    simp only [↓reduceIte]
+    rcases List.mem_cons.mp hu with rfl | hu
+    · exact (uploads_spec env henv.hash_eq (k + 1) rest _).2.present_mono
+        (upload_present henv k d body (hups (d, body) (by simp)) st)
+    · exact ih (k + 1) (fun v hv => hups v (List.mem_cons_of_mem _ hv)) _ u hu
+
+theorem cleanupOld_ok (env : Env) (old : Option Man) (st : Store) : (cleanupOld env old st).ok = true := by
+  unfold cleanupOld
+  split
+  · split
+    · rfl
+    · exact removeLayers_ok _ _
+  · rfl
+
+/-- the size `createModel` records for the gguf layer: the length of whatever bytes are under that digest -/
+theorem blobSize_of {st : Store} {d : Digest} {bs : Bytes} (h : get st (.blob d) = some (.raw bs)) :
+    blobSize st d = bs.length := by unfold blobSize; rw [h]
+
+/-- What a create whose gguf blob is among the honest client's uploads does to the manifest files: it
+succeeds, name `n` gets the manifest with the gguf layer (size = length of the bytes stored under that
+digest), the data layers and the config; every other name is untouched. -/
+theorem create_final {hash : Bytes → Digest} {env : Env} (henv : EnvOK hash env) (hat : env.atomicMan = true)
+    (n : Name) (ups : List (Digest × Bytes)) (file : Digest) (datas : List Bytes) (cfg : Bytes)
+    (hups : ∀ u ∈ ups, hash u.2 = u.1) (hfile : ∃ body, (file, body) ∈ ups)
+    (st : Store) (hinv : Inv hash st) :
+    (create env n ups file datas cfg st).ok = true ∧
+    ∃ bs, hash bs = file ∧ ∀ n', get (run (create env n ups file datas cfg st).effs st) (.man n') =
+      if n' = n then some (.man ⟨⟨file, bs.length⟩ :: datas.map (layerOf env), layerOf env cfg⟩) else get st (.man n') := by
+  obtain ⟨body, hb⟩ := hfile
+  have hup := uploads_spec env henv.hash_eq 0 ups st
+  have hpres : present (run (uploads env 0 ups st).effs st) (.blob file) = true :=
+    uploads_present henv 0 ups hups st (file, body) hb
+  have hinv1 : Inv hash (run (uploads env 0 ups st).effs st) := StoreCrash.seq_preserves_inv hinv hup.1
+  have hman1 : ∀ x, get (run (uploads env 0 ups st).effs st) (.man x) = get st (.man x) := hup.2.1
+  generalize hst1 : run (uploads env 0 ups st).effs st = st1 at hpres hinv1 hman1
+  -- the bytes under the gguf digest
+  have hex : ∃ bs, get st1 (.blob file) = some (.raw bs) ∧ hash bs = file := by
+    unfold present at hpres
+    cases hg : get st1 (.blob file) with
+    | none => simp [hg] at hpres
+    | some c => obtain ⟨bs, rfl, hh⟩ := hinv1.1 file c hg; exact ⟨bs, rfl, hh⟩
+  obtain ⟨bs, hgb, hhb⟩ := hex
+  have hnl := newLayers_spec env henv.hash_eq ups.length (datas ++ [cfg]) st1
+  have hsize : blobSize (run (newLayers env ups.length (datas ++ [cfg]) st1).effs st1) file = bs.length :=
+    blobSize_of (hnl.2.1.2 file _ hgb)
+  have hman2 : ∀ x, get (run (newLayers env ups.length (datas ++ [cfg]) st1).effs st1) (.man x) = get st1 (.man x) :=
+    hnl.2.1.1
+  have hH : (createHandler env ups.length n file datas cfg st1).ok = true ∧
+      ∀ n', get (run (createHandler env ups.length n file datas cfg st1).effs st1) (.man n') =
+        if n' = n then some (.man ⟨⟨file, bs.length⟩ :: datas.map (layerOf env), layerOf env cfg⟩) else get st1 (.man n') := by
+    unfold createHandler
+    dsimp only
+    simp only [hpres, Bool.not_true, Bool.false_eq_true, ↓reduceIte]
+    constructor
+    · rw [andThen_ok, andThen_ok, hnl.2.2.1, writeManifest_ok, cleanupOld_ok]; rfl
+    · intro n'
+      rw [run_andThen, hnl.2.2.1]
+      simp only [↓reduceIte]
+      rw [get_run_wm_then env hat _ _ _ _ _ _ (fun st3 => manOnly_cleanupOld _ env _ st3), hman2]
+      simp only [createMan, hsize]
+  refine ⟨?_, bs, hhb, ?_⟩
+  · unfold create; rw [andThen_ok, uploads_ok, hst1, hH.1]; rfl
+  · intro n'
+    unfold create
+    rw [run_andThen, uploads_ok]
+    simp only [↓reduceIte]
+    rw [hst1, hH.2 n', hman1]
+
+/-- **Clause 3 for create (fixed variant).**  Store with the invariant; honest client (every upload's bytes
+hash to its digest) whose uploads include the gguf blob; `hash` has no length-collision at the gguf digest
+(the manifest records the SIZE of whatever bytes are stored under it).  Kill the create anywhere (client
+uploads included), run the start-up sequence — which may prune every blob uploaded so far —, create again:
+it SUCCEEDS, every manifest file is exactly what the uninterrupted create leaves, the invariant holds. -/
+theorem rerun_converges_create {hash : Bytes → Digest} {env : Env} (henv : EnvOK hash env)
+    (hat : env.atomicMan = true) {st : Store} (hinv : Inv hash st)
+    (n : Name) (ups : List (Digest × Bytes)) (file : Digest) (datas : List Bytes) (cfg : Bytes)
+    (hups : ∀ u ∈ ups, hash u.2 = u.1) (hfile : ∃ body, (file, body) ∈ ups)
+    (hcf : ∀ bs bs', hash bs = file → hash bs' = file → bs.length = bs'.length)
+    (p : List Effect) (hp : CrashPrefix ((Op.create n ups file datas cfg).exec env st).effs p) :
+    let st1 := restartWith env (run p st)
+    ((Op.create n ups file datas cfg).exec env st1).ok = true ∧
+    (∀ n', get (run ((Op.create n ups file datas cfg).exec env st1).effs st1) (.man n') =
+           get (run ((Op.create n ups file datas cfg).exec env st).effs st) (.man n')) ∧
+    Inv hash (run ((Op.create n ups file datas cfg).exec env st1).effs st1) := by
+  intro st1
+  have hcs := crash_safe henv hinv (.create n ups file datas cfg) trivial p hp
+  have G := fun n' => atomic_manifest_old_or_new hat (.create n ups file datas cfg) st p hp n'
+  obtain ⟨hok0, bs0, hb0, hU⟩ := create_final henv hat n ups file datas cfg hups hfile st hinv
+  obtain ⟨hok1, bs1, hb1, hR⟩ := create_final henv hat n ups file datas cfg hups hfile st1 hcs.2.1
+  have hlen : bs1.length = bs0.length := hcf bs1 bs0 hb1 hb0
+  refine ⟨hok1, ?_, StoreCrash.seq_preserves_inv hcs.2.1 (exec_seqOK henv hcs.2.1 _ trivial)⟩
+  intro n'
+  simp only [Op.exec] at G ⊢
+  rw [hR n', hU n', hlen]
+  by_cases hn : n' = n
+  · simp [hn]
+  · simp only [hn, ↓reduceIte]
+    rcases G n' with h | h
+    · exact h
+    · rw [h, hU n']; simp [hn]
+
+/-- the hypotheses are satisfiable by a create that really uploads, writes two layers and a manifest
+(fixed variant: 15 effects) -/
+example : (∀ u ∈ [(("d2" : Digest), ([2] : Bytes))], wHash u.2 = u.1) ∧ (∃ body, (("d2" : Digest), body) ∈ [(("d2" : Digest), ([2] : Bytes))]) ∧
+    ((Op.create "n" [("d2", [2])] "d2" [[1]] [7]).exec wEnvA wStoreA).effs.length = 15 ∧
+    ((Op.create "n" [("d2", [2])] "d2" [[1]] [7]).exec wEnvA wStoreA).ok = true := by
+  refine ⟨?_, ⟨[2], by simp⟩, by decide, by decide⟩
+  intro u hu; simp at hu; subst hu; decide
+
 end OllamaVerif.C12
